@@ -68,6 +68,17 @@ def decode_targets(node, typed=True):
     if code == "L":
         t.append(("Array(ANYVALUE)", lambda: V.Array(ce.anyvalue())))
         t.append(("ANYVALUE", lambda: ce.anyvalue()()))
+
+        # the same targets on their second use: an object that already decoded another (non-empty) list and a leaf before
+        def used(mk):
+            def make():
+                obj = mk()
+                obj.decode(e5.enc(("L", [("U1", [9]), ("A", b"zz"), ("L", [("U2", [300])])])))
+                return obj
+            return make
+
+        t.append(("Array(ANYVALUE)/reused", used(lambda: V.Array(ce.anyvalue()))))
+        t.append(("ANYVALUE/reused", used(lambda: ce.anyvalue()())))
     else:
         if typed:
             t.append((code, lambda: ce.VCLASS[code]()))
@@ -75,6 +86,13 @@ def decode_targets(node, typed=True):
             t.append((code + "/reused", lambda: ce.VCLASS[code](other)))
         if code != "J":
             t.append(("ANYVALUE", lambda: ce.anyvalue()()))
+
+            def used_any():
+                obj = ce.anyvalue()()
+                obj.decode(e5.enc(("L", [("U1", [9]), ("A", b"zz")])))
+                return obj
+
+            t.append(("ANYVALUE/reused", used_any))
     return t
 
 
